@@ -34,7 +34,7 @@ def _execute(record, root):
     names = record["batch"]
     for k, e in enumerate(out):
         c = e["op"]["cfg"]
-        tag = f"solve {k} batch={names} {record['method']} conv={c['conv']} sp2={c['sp2']} eps={c['eps']} uhf={c['uhf']} backward={c.get('backward', 0)} start={e['start']}({e.get('from')}) cap={e['op'].get('cap')}"
+        tag = f"solve {k} batch={names} {record['method']} conv={c['conv']} sp2={c['sp2']} eps={c['eps']} uhf={c['uhf']} backward={c.get('backward', 0)} forces={c.get('grad', 'autodiff')} start={e['start']}({e.get('from')}) cap={e['op'].get('cap')}"
         stats["solves"] += 1
         if e.get("nonterminating"):
             failures.append(core.fail("nontermination", f"{tag}: no return within {scfsim.LINE_BUDGET} line events of library code; clock ran out at {e['nonterminating']}"))
@@ -86,7 +86,7 @@ def _execute(record, root):
         stats["probes"]["padded_batches"] = 1
     if any(scfsim.SPECIES[n][1] < 0 for n in names) and any(e["op"]["cfg"]["sp2"][0] for e in out) and "padded_batches" in stats["probes"]:
         stats["probes"]["sp2_padded_anion"] = 1
-    sig = [names, record["method"], [(e["op"]["cfg"]["conv"], e["op"]["cfg"]["sp2"], e["op"]["cfg"]["eps"], e["op"]["cfg"]["uhf"], e["op"]["cfg"].get("backward", 0), e["start"], e["op"].get("cap")) for e in out]]
+    sig = [names, record["method"], [(e["op"]["cfg"]["conv"], e["op"]["cfg"]["sp2"], e["op"]["cfg"]["eps"], e["op"]["cfg"]["uhf"], e["op"]["cfg"].get("backward", 0), e["op"]["cfg"].get("grad"), e["start"], e["op"].get("cap")) for e in out]]
     sample = {"session": record, "solves": [{"notconverged": e.get("notconverged"), "lines": e.get("lines"), "exc": e.get("exc"), "start": e["start"], "from": e.get("from")} for e in out]}
     dig = core.digest([[e.get("notconverged"), [round(v, 9) for v in (e.get("Etot") or [])]] for e in out])
     return core.Result.make(record, failures, stats, sig=sig, nontrivial=len(out) >= 2, sample=sample, digest_=dig)
